@@ -5,7 +5,9 @@ import (
 	"fmt"
 	"os"
 	"path/filepath"
+	"runtime"
 	"runtime/metrics"
+	"strings"
 	"sync/atomic"
 	"time"
 )
@@ -67,6 +69,75 @@ func StartMemoryWatchdog() {
 			msg := fmt.Sprintf("the live heap grew beyond %d bytes while executing this case (no generated case holds more than a few MiB of data): an operation allocates without bound", HeapLimit)
 			path := st.Violation("unbounded-allocation", f.Case(), msg)
 			fmt.Printf("VIOLATION-CANDIDATE sig=unbounded-allocation replay=%s\n%s\n", path, msg)
+			os.Exit(1)
+		}
+	}()
+}
+
+// engineFrame marks stack frames of the code under test.
+const engineFrame = "github.com/XiXi-2024/xixi-kv"
+
+// StartDeadlockWatchdog decides "a call into the engine never returns" from goroutine wait states, not from
+// elapsed time: while a case is in flight, every goroutine that is inside the engine is parked in a lock wait
+// (sync.Mutex / sync.RWMutex), none is running, runnable or in a system call, and the set of those goroutines
+// and their stacks is identical at three inspections 10 s apart. Nobody inside the engine can release the lock
+// then, and the harness never holds an engine lock across calls of other goroutines (every batch is committed by
+// the goroutine that opened it before that goroutine does anything else). The case in flight is recorded as a
+// violation and the process exits with status 1 (a parked goroutine cannot be recovered from).
+func StartDeadlockWatchdog() {
+	go func() {
+		var prev string
+		var prevCase *InFlight
+		same := 0
+		for {
+			time.Sleep(10 * time.Second)
+			f := inFlight.Load()
+			if f == nil {
+				prev, prevCase, same = "", nil, 0
+				continue
+			}
+			buf := make([]byte, 8<<20)
+			n := runtime.Stack(buf, true)
+			dump := string(buf[:n])
+			stuck, other := 0, 0
+			var sig []string
+			for _, g := range strings.Split(dump, "\n\n") {
+				if !strings.Contains(g, engineFrame+".") && !strings.Contains(g, engineFrame+"/") {
+					continue
+				}
+				head := g
+				if k := strings.IndexByte(g, '\n'); k >= 0 {
+					head = g[:k]
+				}
+				if strings.Contains(head, "[sync.Mutex.Lock") || strings.Contains(head, "[sync.RWMutex.Lock") ||
+					strings.Contains(head, "[sync.RWMutex.RLock") || strings.Contains(head, "[semacquire") {
+					stuck++
+					if k := strings.IndexByte(head, '['); k >= 0 {
+						sig = append(sig, head[:k]+g[len(head):]) // goroutine id + frames, without the minutes counter
+					}
+				} else {
+					other++
+				}
+			}
+			cur := strings.Join(sig, "|")
+			if stuck == 0 || other > 0 || f != prevCase || cur != prev {
+				prev, prevCase, same = cur, f, 0
+				if stuck == 0 || other > 0 {
+					prev = ""
+				}
+				continue
+			}
+			same++
+			if same < 2 {
+				continue
+			}
+			st := StatsFor(f.Property)
+			if len(dump) > 7000 {
+				dump = dump[:7000]
+			}
+			msg := "every goroutine inside the engine is parked in a lock wait, none is runnable, and nothing changed between three inspections 10 s apart: the call in flight never returns (deadlock)\n" + dump
+			path := st.Violation("deadlock", f.Case(), msg)
+			fmt.Printf("VIOLATION-CANDIDATE sig=deadlock replay=%s\n%s\n", path, msg)
 			os.Exit(1)
 		}
 	}()
